@@ -131,7 +131,10 @@ class WorkflowBuilder(WorkflowBase):
             New task
         """
         mapping = {task: new_task}
-        nx.relabel_nodes(self._g, mapping, copy=False)
+        # NOTE: Relabeling in place would move the new task last among the
+        # nodes and among the predecessors of its successors, changing the
+        # order in which these successors receive their inputs.
+        self._g = nx.relabel_nodes(self._g, mapping, copy=True)
 
     def insert_workflow(
         self, other: Workflow, predecessors: Optional[Union[Task, list[Task]]] = None
